@@ -562,7 +562,7 @@ func conc(r *rand.Rand, out *gal.Out, n, rounds int, prefix string) {
 func main() {
 	seed := flag.Uint64("seed", 1, "PRNG seed")
 	prefix := flag.String("out", "c15", "output prefix")
-	mode := flag.String("mode", "random", "corpus|random|nearmiss|replay|conc")
+	mode := flag.String("mode", "random", "corpus|random|nearmiss|sweep|replay|conc")
 	n := flag.Int("n", 300, "number of cases")
 	rounds := flag.Int("rounds", 3, "conc: how often every goroutine runs every chain")
 	in := flag.String("in", "", "replay: JSON file with a list of {fac, steps}")
@@ -587,6 +587,19 @@ func main() {
 		}
 	case "conc":
 		conc(r, out, *n, *rounds, *prefix)
+	case "sweep":
+		// every ordered pair of the 19 methods as a two-step chain, from n of the 4 factory presets
+		presets := []facDesc{{Name: "ErrS", IsFac: true}, {Name: "ErrS", Msg: "base", Src: "preset:src", IsFac: true},
+			{Name: "ErrS", Msg: "base"}, {Name: "", Src: "preset:src", IsFac: true}}
+		for pi := 0; pi < *n && pi < len(presets); pi++ {
+			for i, m1 := range MethodNames {
+				for j, m2 := range MethodNames {
+					s1 := stepDesc{M: m1, Src: "s1", DTag: "t1", Format: " f1\t", Err: errDesc{Kind: "new", Msg: "e1"}, Flavour: i % 4}
+					s2 := stepDesc{M: m2, Src: "s2", DTag: "t2", Format: "f%d", Elems: []elem{{"int", "2"}}, Err: errDesc{Kind: "slice", Msg: "e2"}, Flavour: j % 4}
+					emit(out, "sweep", presets[pi], []stepDesc{s1, s2})
+				}
+			}
+		}
 	case "nearmiss":
 		for i := 0; i < *n; i++ {
 			fd, steps := randCase(r, true)
